@@ -505,6 +505,43 @@ func main() {
 	}
 	l = append(l, scenario(scen{name: "2dc/pd-leader-move+2joins", zones: two, alloc: map[string]int{"dc1": 1, "dc2": 2}, pre: 1, tiers: "quick", build: leaderMove}))
 	l = append(l, scenario(scen{name: "2dc/pd-leader-move+2joins@3", zones: two, alloc: map[string]int{"dc1": 1, "dc2": 2}, pre: 3, tiers: "thorough", build: leaderMove}))
+	// dc2's allocator leader has a clock reading with a sub-millisecond part (timestamps carry
+	// milliseconds): a global timestamp in the same millisecond must still be written back
+	subMs := func(w *world) ([]string, []func()) {
+		vclock.SetOffset(2, 1300*time.Microsecond)
+		return []string{"local2+global", "local1"}, []func(){
+			func() { w.update(2, 0); w.request(2, "dc2", 1); w.request(1, G, 1); w.request(2, "dc2", 1) },
+			func() { w.request(1, "dc1", 1); w.request(1, G, 1) },
+		}
+	}
+	l = append(l, scenario(scen{name: "2dc/local+global/sub-ms-clock", zones: two, alloc: map[string]int{"dc1": 1, "dc2": 2}, pre: 3, tiers: "quick", build: subMs}))
+	// a fourth dc-location joins and the followers run their checker before the PD leader has
+	// given it a suffix, and again afterwards: everybody must end up with a wide enough suffix width
+	fourth := func(w *world) ([]string, []func()) {
+		return []string{"join", "global"}, []func(){
+			func() {
+				w.zones[4] = "dc4"
+				w.addServer(4)
+				w.srvs[4].VerifMember().VerifSetLeader(w.srvs[1].VerifMember().Member())
+				for _, id := range []int{2, 3, 4} { // followers first: dc4 is known, its suffix is not
+					sched.SetMember(id)
+					w.srvs[id].GetTSOAllocatorManager().ClusterDCLocationChecker()
+				}
+				sched.SetMember(1)
+				w.refresh() // the leader assigns the suffix, the followers look again
+				if err := w.electAllocator(4, "dc4"); err == nil {
+					w.request(4, "dc4", 1)
+					w.request(2, "dc2", 1)
+					w.request(3, "dc3", 1)
+					w.request(1, G, 1)
+				}
+			},
+			func() { w.request(1, G, 1) },
+		}
+	}
+	three3 := map[int]string{1: "dc1", 2: "dc2", 3: "dc3"}
+	l = append(l, scenario(scen{name: "3dc/fourth-joins/followers-look-first", zones: three3, alloc: map[string]int{"dc1": 1, "dc2": 2, "dc3": 3}, pre: 1, tiers: "quick", build: fourth}))
+	l = append(l, scenario(scen{name: "3dc/fourth-joins/followers-look-first@3", zones: three3, alloc: map[string]int{"dc1": 1, "dc2": 2, "dc3": 3}, pre: 3, tiers: "thorough", build: fourth}))
 	// two members want the same allocator leadership: dc2's allocator is led by server 2 and
 	// server 1 campaigns for it as well (its view of the leadership is late)
 	contend := func(w *world) ([]string, []func()) {
